@@ -527,7 +527,7 @@ func (w *c14World) bfdCalm(max time.Duration) bool {
 
 func c14Child(cfg childCfg) {
 	t0 := time.Now()
-	_ = log.Setup(log.Config{Console: log.ConsoleConfig{Level: "error", StacktraceLevel: "error"}})
+	_ = log.Setup(log.Config{Console: log.ConsoleConfig{Level: "error", StacktraceLevel: "none"}})
 	w, err := buildC14World(cfg)
 	if err != nil {
 		emit(&phaseReport{Phase: "setup", Inconclusive: "fixture: " + err.Error()})
